@@ -117,19 +117,38 @@ class Rf:
 
 
 class Vc:
-    """Summary of a vector / slice / array / boxed slice: one summary element and a length interval."""
-    __slots__ = ("elem", "len")
+    """Summary of a vector / slice / array / boxed slice: a summary element and a length interval; optionally the element at
+    index 0 is tracked separately (`head`), so that code treating the first element differently is visible."""
+    __slots__ = ("elem", "len", "head")
 
-    def __init__(self, elem, length):
-        self.elem, self.len = elem, length
+    def __init__(self, elem, length, head=None):
+        self.elem, self.len, self.head = elem, length, head
+
+    def all_elems(self):
+        """Join of every element (head included)."""
+        if self.head is None:
+            return self.elem
+        return join(self.head, self.elem) if self.elem is not None else self.head
+
+    def at(self, lo, hi):
+        """Element(s) at indices lo..=hi (None = unknown)."""
+        if self.head is None or lo is None:
+            return self.all_elems()
+        if hi == 0:
+            return self.head
+        if lo > 0:
+            return self.elem
+        return self.all_elems()
 
     def __eq__(self, o):
-        return isinstance(o, Vc) and self.elem == o.elem and self.len == o.len
+        return isinstance(o, Vc) and self.elem == o.elem and self.len == o.len and self.head == o.head
 
     def __hash__(self):
         return hash(self.len)
 
     def __repr__(self):
+        if self.head is not None:
+            return "Vc<[0]=%r, rest=%r; len=%r>" % (self.head, self.elem, self.len)
         return "Vc<%r; len=%r>" % (self.elem, self.len)
 
 
@@ -210,7 +229,9 @@ def join(a, b):
     if ta is Rf:
         return Rf(a.place if a.place == b.place else None, join(a.snap, b.snap), a.mut or b.mut)
     if ta is Vc:
-        return Vc(join(a.elem, b.elem), a.len.join(b.len))
+        if a.head is not None and b.head is not None:
+            return Vc(join(a.elem, b.elem), a.len.join(b.len), join(a.head, b.head))
+        return Vc(join(a.all_elems(), b.all_elems()), a.len.join(b.len))
     if ta is Ax:
         if a.kind == b.kind and len(a.data) == len(b.data):
             return Ax(a.kind, [join(x, y) if not isinstance(x, (str, int, bool, type(None))) or isinstance(x, bool) and False else (x if x == y else None)
@@ -240,7 +261,9 @@ def widen(a, b, lm):
             vs[k] = tuple(widen(x, y, lm) for x, y in zip(vs[k], p)) if k in vs else p
         return En(a.ty, vs)
     if ta is Vc:
-        return Vc(widen(a.elem, b.elem, lm), a.len.widen(b.len, lm[1]))
+        if a.head is not None and b.head is not None:
+            return Vc(widen(a.elem, b.elem, lm), a.len.widen(b.len, lm[1]), widen(a.head, b.head, lm))
+        return Vc(widen(a.all_elems(), b.all_elems(), lm), a.len.widen(b.len, lm[1]))
     if ta is Rf:
         return Rf(a.place if a.place == b.place else None, widen(a.snap, b.snap, lm), a.mut or b.mut)
     if ta is Ax and a.kind == b.kind and len(a.data) == len(b.data):
@@ -560,7 +583,8 @@ class Interp:
                     val = Top()
             elif e[0] == "e":
                 if isinstance(val, Vc):
-                    val = val.elem
+                    rng = e[1] if len(e) > 1 else (None, None)
+                    val = val.at(rng[0], rng[1])
                 elif isinstance(val, Ax) and val.kind == "table":
                     val = self.table_elem(val.data[0], e[1] if len(e) > 1 else None)
                 else:
@@ -662,6 +686,15 @@ class Interp:
             return Top(getattr(old, "ty", None))
         if e[0] == "e":
             if isinstance(old, Vc):
+                rng = e[1] if len(e) > 1 else (None, None)
+                if old.head is not None and rng[0] is not None:
+                    if rng[1] == 0:
+                        return Vc(old.elem, old.len, self._update(old.head, proj[1:], val, weak))
+                    if rng[0] > 0:
+                        return Vc(self._update(old.elem, proj[1:], val, True), old.len, old.head)
+                    return Vc(self._update(old.elem, proj[1:], val, True), old.len, self._update(old.head, proj[1:], val, True))
+                if old.head is not None:
+                    return Vc(self._update(old.elem, proj[1:], val, True), old.len, self._update(old.head, proj[1:], val, True))
                 return Vc(self._update(old.elem, proj[1:], val, True), old.len)
             return Top(getattr(old, "ty", None))
         if e[0] == "s":
@@ -753,6 +786,13 @@ class Interp:
             return Rf(None, Top(), True)
         return Top(dest_ty)
 
+    def fl_post(self, v):
+        """Optional IEEE-range mode (self.ieee = 32 | 64): round exact points, add overflow/underflow outcomes."""
+        bits = getattr(self, "ieee", None)
+        if bits and isinstance(v, Fl):
+            return V.fl_round(v, bits)
+        return v
+
     # ---- arithmetic
     def binop(self, op, a, b, pa, pb, same, inst, bi, span):
         a = self.materialize(a)
@@ -763,17 +803,17 @@ class Interp:
                 t, f = V.cmp_outcomes(cmpops[op], a, b, same)
                 return Bo(t, f, ("cmp", cmpops[op], (pa, a), (pb, b)), self.stamp, (inst["key"] if inst else None, bi))
             if op == "Add":
-                return V.fl_add(a, b)
+                return self.fl_post(V.fl_add(a, b))
             if op == "Sub":
                 if same and a.is_finite():
                     return Fl.point(0)
-                return V.fl_sub(a, b)
+                return self.fl_post(V.fl_sub(a, b))
             if op == "Mul":
-                return V.fl_mul(a, b, same)
+                return self.fl_post(V.fl_mul(a, b, same))
             if op == "Div":
-                if same and a.is_finite() and not a.contains(0):
+                if same and a.is_finite() and not a.has_zero():
                     return Fl.point(1)
-                return V.fl_div(a, b)
+                return self.fl_post(V.fl_div(a, b))
             if op == "Rem":
                 return Fl.top()
             return Top()
@@ -945,6 +985,8 @@ class Interp:
                 return In(lo, hi, t["bits"], t["signed"])
             return self.top_of(ty)
         if kind == "FloatToFloat":
+            if isinstance(a, Fl) and getattr(self, "ieee", None) and t["k"] == "float":
+                return V.fl_round(a, t["bits"])
             return a if isinstance(a, Fl) else Fl.top()
         if kind.startswith("PointerCoercion"):
             return a
@@ -1060,7 +1102,7 @@ class Interp:
         return self.run_fn(inst, args, dict(st or {}), None)
 
     def run_fn(self, inst, args, st, call_site):
-        if self.depth > MAX_DEPTH or inst["key"] in [c for c in self.call_stack[-MAX_DEPTH:]] and self.call_stack.count(inst["key"]) > 2:
+        if self.depth > MAX_DEPTH or inst["key"] in [c for c in self.call_stack[-MAX_DEPTH:]] and self.call_stack.count(inst["key"]) > 10:
             self.imprecise.append("recursion/depth limit at " + inst["key"])
             return Top(inst["locals"][0]["ty"]), st
         self.fid += 1
